@@ -335,7 +335,7 @@ func (s *Sim) drive() {
 					wait = d
 				}
 			}
-			tm := time.NewTimer(wait)
+			tm := quietTimer(wait)
 			select {
 			case <-s.wake:
 				tm.Stop()
